@@ -246,9 +246,22 @@ class Engine(EngineBase, AccessMixin, StmtMixin, CallMixin):
         q.env = dict(env)
         # ghost / typed params keep their entry values; result bound
         outs = [(q, v)]
-        if isinstance(v, VUnion) and c.ret not in (None, 'Any'):
-            outs = self.cases(q, v)
+        if isinstance(v, VUnion):
+            try:
+                outs = self.cases(q, v)
+            except Unsupported:
+                outs = [(q, v)]
+        outs2 = []
         for (q2, rv) in outs:
+            if isinstance(rv, VRef) and rv.cls is None:
+                try:
+                    for (q3, cn) in self.classof(q2, rv):
+                        outs2.append((q3, VRef(rv.t, cn)))
+                    continue
+                except Unsupported:
+                    pass
+            outs2.append((q2, rv))
+        for (q2, rv) in outs2:
             q2.env = dict(env)
             sfc.result = rv
             if c.ret is not None and c.ret != 'Any':
